@@ -655,6 +655,10 @@ func (self *ReplicationClient) InitSync() error {
 			}
 			self.currentAofId = [16]byte{}
 			self.manager.currentAofId = self.currentAofId
+			// the next connection asks for all files (empty position): it must take the file-transfer
+			// path below, not this resume path - or the files and their end marker arrive as live records
+			self.aofLock = nil
+			self.recvedFiles = false
 			return err
 		}
 		err = self.sendStarted()
